@@ -273,6 +273,7 @@ class Wtp:
         "begline_disabled",  # context-managerish thing for begline_en..
         "linenum",  # Current line number
         "pre_parse",  # XXX is pre-parsing still needed?
+        "keep_nowiki_cookies",  # True while parse() expands before parsing
         "parser_stack",  # Parser stack
         "section",  # Section within page, for error messages
         "subsection",  # Subsection within page, for error messages
@@ -354,6 +355,7 @@ class Wtp:
         self.linenum = 1
         self.pre_parse = False
         self.suppress_special = False
+        self.keep_nowiki_cookies = False
         self.lua_env_stack: deque["_LuaTable"] = deque()
         self.lua_frame_stack: deque["_LuaTable"] = deque()
         self.project = project
@@ -1307,6 +1309,10 @@ class Wtp:
         assert timeout is None or isinstance(timeout, (int, float))
 
         # Handle <nowiki> in a preprocessing step
+        # Set by parse() for the one expansion it runs before parsing; nested
+        # expansions (frame:preprocess() etc.) finish their text as usual.
+        keep_nowiki = self.keep_nowiki_cookies
+        self.keep_nowiki_cookies = False
         text = self.preprocess_text(text)
 
         def invoke_fn(
@@ -1792,7 +1798,7 @@ class Wtp:
         expanded = expand_recurse(encoded, parent, not pre_expand)
 
         # Expand any remaining magic cookies and remove nowiki char
-        expanded = self._finalize_expand(expanded)
+        expanded = self._finalize_expand(expanded, keep_nowiki)
 
         # Remove LanguageConverter markups:
         # https://www.mediawiki.org/wiki/Writing_systems/Syntax
@@ -1802,7 +1808,7 @@ class Wtp:
 
         return expanded
 
-    def _finalize_expand(self, text: str) -> str:
+    def _finalize_expand(self, text: str, keep_nowiki: bool = False) -> str:
         """Expands any remaining magic characters (to their original values)
         and removes nowiki characters."""
         # print("_finalize_expand: {!r}".format(text))
@@ -1821,6 +1827,10 @@ class Wtp:
             if kind == "E":
                 return self._unexpanded_extlink(args, nowiki)
             if kind == "N":
+                if keep_nowiki:
+                    # The text goes on to the parser (see parse()), which
+                    # turns the cookie into text that is not tokenised again
+                    return m.group(0)
                 if not args[0]:
                     return "<nowiki/>"
                 return nowiki_quote(args[0])
@@ -2022,23 +2032,32 @@ class Wtp:
         # Preprocess.  This may also add some MAGIC_NOWIKI_CHARs.
         text = self.preprocess_text(text)
 
-        # Expand some or all templates in the text as requested
-        if expand_all:
-            text = self.expand(
-                text, template_fn=template_fn, post_template_fn=post_template_fn
-            )
-            text = self.preprocess_text(text)
-            # print(f"PARSE EXPAND ALL: {text=!r}")
-        elif pre_expand or additional_expand:
-            text = self.expand(
-                text,
-                pre_expand=pre_expand,
-                templates_to_expand=additional_expand,
-                templates_to_not_expand=do_not_pre_expand,
-                template_fn=template_fn,
-                post_template_fn=post_template_fn,
-            )
-            text = self.preprocess_text(text)
+        # Expand some or all templates in the text as requested.  <nowiki>
+        # content stays behind its cookie through the expansion: written out
+        # as quoted text it would be tokenised again below, and a ";", "----"
+        # or blank at the start of a line would become markup after all.
+        self.keep_nowiki_cookies = True
+        try:
+            if expand_all:
+                text = self.expand(
+                    text,
+                    template_fn=template_fn,
+                    post_template_fn=post_template_fn,
+                )
+                text = self.preprocess_text(text)
+                # print(f"PARSE EXPAND ALL: {text=!r}")
+            elif pre_expand or additional_expand:
+                text = self.expand(
+                    text,
+                    pre_expand=pre_expand,
+                    templates_to_expand=additional_expand,
+                    templates_to_not_expand=do_not_pre_expand,
+                    template_fn=template_fn,
+                    post_template_fn=post_template_fn,
+                )
+                text = self.preprocess_text(text)
+        finally:
+            self.keep_nowiki_cookies = False
 
         # print("parse:", repr(text))
 
